@@ -62,13 +62,14 @@ type genMerge struct {
 }
 
 type Exec struct {
-	L         *Loader
-	lines     []string
-	nf        int
-	onceM     map[string]int // memo key -> line index at which it was emitted
-	keySort   map[string]string
-	genMerges map[int]*genMerge
-	ngen      int
+	missingVariants []*Obligation // structural: loops without a measure in a function that claims termination
+	L               *Loader
+	lines           []string
+	nf              int
+	onceM           map[string]int // memo key -> line index at which it was emitted
+	keySort         map[string]string
+	genMerges       map[int]*genMerge
+	ngen            int
 
 	obls         []*Obligation
 	top          *ssa.Function
